@@ -744,7 +744,7 @@ func main() {
 		specs = []CaseSpec{c}
 	} else {
 		specs = corpus()
-		n := 9
+		n := 20
 		if o.Thorough() {
 			n = 90
 		}
